@@ -56,6 +56,10 @@ func cancelProgram(kind string, r *rand.Rand) *InitSpec {
 		code = []int{0xdb, 0x10, 0xd3, 0x11, 0x3c, 0x18, 0xf9} // IN A,(10h); OUT (11h),A; INC A; JR loop
 	case "djnz-loop":
 		code = []int{0x06, 0x00, 0x10, 0xfe, 0x18, 0xfa}
+	case "nop-sea": // blank memory: a program that never jumps (PC wraps FFFF -> 0000)
+		is.Dev = DevDesc{Kind: "const", Val: 0x00, Len: 65536}
+	case "inc-sea":
+		is.Dev = DevDesc{Kind: "const", Val: 0x3c, Len: 65536}
 	case "prefix-sea": // memory reading DD everywhere: every Step consumes an unsupported pair
 		is.Dev = DevDesc{Kind: "const", Val: 0xdd, Len: 65536}
 	case "fd-sea":
@@ -154,8 +158,8 @@ func cmdCancel(args []string) {
 			}
 		})
 	}
-	nonterm := []string{"jr-loop", "ldir-loop", "io-loop", "djnz-loop", "prefix-sea", "fd-sea"}
-	modes := []string{"before", "gate", "async", "deadline", "never-halt", "never-bp", "gate-hooked"}
+	nonterm := []string{"jr-loop", "ldir-loop", "io-loop", "djnz-loop", "prefix-sea", "fd-sea", "nop-sea", "inc-sea"}
+	modes := []string{"before", "gate", "async", "deadline", "never-halt", "never-bp", "gate-hooked", "cause", "deadline-cause"}
 	counts := map[string]int{}
 	runtime.GC()
 	base := runtime.NumGoroutine()
@@ -223,6 +227,13 @@ func cmdCancel(args []string) {
 			go func() { time.Sleep(d); cancelParent(); markCancel() }()
 		case "deadline":
 			ctx, cancel = context.WithTimeout(parent, time.Duration(200+r.Intn(2000))*time.Microsecond)
+		case "cause": // cancelled with a cause: Run must still return the context's error (ctx.Err())
+			cctx, ccancel := context.WithCancelCause(parent)
+			ctx = cctx
+			d := time.Duration(r.Intn(1500)) * time.Microsecond
+			go func() { time.Sleep(d); ccancel(errors.New("power off")); markCancel() }()
+		case "deadline-cause":
+			ctx, cancel = context.WithTimeoutCause(parent, time.Duration(200+r.Intn(1500))*time.Microsecond, errors.New("watchdog"))
 		case "never-bp":
 			rs.BPNil = false
 			rs.BP = []int{0x0102}
@@ -271,12 +282,14 @@ func cmdCancel(args []string) {
 			add(cancelFinding{What: "Run returned an error although the context was never cancelled", Program: kind, Mode: mode, Detail: fmt.Sprint(rr.err), Seed: *seed, Trial: t})
 		case mode == "never-bp" && !errors.Is(rr.err, z80.ErrBreakPoint) && !(kind == "halt-now" && rr.err == nil):
 			add(cancelFinding{What: "Run did not stop at the break point", Program: kind, Mode: mode, Detail: fmt.Sprint(rr.err), Seed: *seed, Trial: t})
-		case mode != "never-halt" && mode != "never-bp" && !term && !isCtx:
+		case mode != "never-halt" && mode != "never-bp" && mode != "cause" && mode != "deadline-cause" && !term && !isCtx:
 			add(cancelFinding{What: "Run returned " + fmt.Sprint(rr.err) + " instead of the context's error", Program: kind, Mode: mode, Seed: *seed, Trial: t})
 		case mode != "never-halt" && mode != "never-bp" && term && !isCtx && rr.err != nil:
 			add(cancelFinding{What: "unexpected error " + fmt.Sprint(rr.err), Program: kind, Mode: mode, Seed: *seed, Trial: t})
 		case isCtx && ctx.Err() == nil:
 			add(cancelFinding{What: "context error returned although the context is not done", Program: kind, Mode: mode, Seed: *seed, Trial: t})
+		case (mode == "cause" || mode == "deadline-cause") && !term && rr.err != ctx.Err():
+			add(cancelFinding{What: "returned error is not the context's error (ctx.Err())", Program: kind, Mode: mode, Detail: fmt.Sprint(rr.err, " vs ", ctx.Err()), Seed: *seed, Trial: t})
 		case isCtx && !errors.Is(rr.err, ctx.Err()):
 			add(cancelFinding{What: "returned error is not the context's error", Program: kind, Mode: mode, Detail: fmt.Sprint(rr.err, " vs ", ctx.Err()), Seed: *seed, Trial: t})
 		}
@@ -319,7 +332,7 @@ func cmdCancel(args []string) {
 			if !rs.BPNil {
 				bp = rs.BP
 			}
-			fmt.Fprintf(w, `{"e":"r","bp":%s,"sched":[],"cancel":%d,"err":"%s","nacc":%d,"r":%s,"h":%d,"md":%s,"pio":%s,"hc":[0,0],"pend":[]}`+"\n",
+			fmt.Fprintf(w, `{"e":"r","bp":%s,"sched":[],"bpswap":[],"cancel":%d,"err":"%s","nacc":%d,"r":%s,"h":%d,"md":%s,"pio":%s,"hc":[0,0],"pend":[]}`+"\n",
 				jInts(bp), rs.Cancel, errs, m.Acc, jInts(rg[:]), b2i(m.CPU.HALT), jPairs(m.Mem.Diff()), jTriples(m.IO.Log))
 		}
 		// (d) goroutine accounting BEFORE the caller's context is released
